@@ -1000,8 +1000,8 @@ func applyEdit(t *rapid.T, g *graphM, name string) bool {
 			}
 			i := pick(len(c.child.Fields), "field")
 			f := c.child.Fields[i]
-			if hasField(c.parent, f.Name) {
-				return false
+			if hasField(c.parent, f.Name) || containsInline(f.A.T, c.parent) {
+				return false // (the child can be an ancestor of the parent through a recursive reference)
 			}
 			c.child.Fields = append(c.child.Fields[:i:i], c.child.Fields[i+1:]...)
 			c.parent.Fields = append(c.parent.Fields, f)
@@ -1095,6 +1095,29 @@ func applyEdit(t *rapid.T, g *graphM, name string) bool {
 		return true
 	}
 	panic("unknown edit " + name)
+}
+
+// containsInline tells whether target occurs in the tree below t (references
+// are not followed).
+func containsInline(t, target *typeM) bool {
+	if t == nil {
+		return false
+	}
+	if t == target {
+		return true
+	}
+	if t.Key != nil && containsInline(t.Key.T, target) {
+		return true
+	}
+	if t.Elem != nil && containsInline(t.Elem.T, target) {
+		return true
+	}
+	for _, f := range t.Fields {
+		if containsInline(f.A.T, target) {
+			return true
+		}
+	}
+	return false
 }
 
 func sortFields(fs []fieldM) {
